@@ -1,6 +1,8 @@
 import AL.Model.Insecure
 import AL.Spec.Untrusted
 import AL.Gen.Builtins
+import AL.Lemmas.InsecureInv
+import AL.Lemmas.InsecureInert
 /-
   C11 — script-injection detection is complete and precise.
   Statements; proved theorems are added below by name.
@@ -62,5 +64,284 @@ where
   leavesOfList (pre : List String) : List Trie → List (List String)
     | [] => []
     | c :: cs => leavesOf pre c ++ leavesOfList pre cs
+
+/-! ## Proofs -/
+
+/-- the evaluation environment of the examples: the generated builtin signatures, real case folding -/
+def exΓ : Env :=
+  { vars := [], funcs := AL.Gen.funcSigs, specialFuncs := [], availCtx := [], availSpecial := [],
+    configVars := none, lower := String.toLower, fromJson := fun _ => .otherErr }
+
+/-- `github.event['PULL_REQUEST'].head.ref == 'x' || contains(github.event.issue.title, 'y') || format('{0}', github.head_ref)` -/
+def exBig : E :=
+  .logical .or
+    (.logical .or
+      (.cmp .eq (.objDeref (.objDeref (.index (.objDeref (.var "github") "event") (.str "PULL_REQUEST")) "head") "ref") (.str "x"))
+      (.call "contains" [.objDeref (.objDeref (.objDeref (.var "github") "event") "issue") "title", .str "y"]))
+    (.call "format" [.str "{0}", .objDeref (.var "github") "head_ref"])
+
+/-- `contains(a, 'b')` -/
+def exSafe : E := .call "contains" [.var "a", .str "b"]
+
+/-- evaluate the chain specification on a concrete expression -/
+macro "spec_simp" : tactic => `(tactic| simp only [reports, chain, reportsList])
+
+/-! ### (a) is FALSE as stated: a safe call does not call `end()`
+
+`OnVisitNodeLeave` of a contains/startsWith/endsWith call only decrements `safeCalls` and returns: the
+cursor that was alive before the call survives it.  If an access segment (`.p`, `.*`, `[i]`) is applied
+directly to such a call, the segment's leave event moves that *stale* cursor.  Consequences, all
+three reproduced below with the generated trie:
+  * `contains(a, 'b')[github.head_ref]`: the index is visited first and leaves `github.head_ref`
+    pending; the safe call does not finish it; the index access then drops it (no `*` child).
+    The machine reports nothing although `github.head_ref` is read (false negative).
+  * `github.event == contains(a, 'b').issue.title`: the stale cursor `github.event` is moved by
+    `.issue.title`: the machine reports `github.event.issue.title`, which the expression never reads.
+  * `github.event.commits == contains(a, 'b').*.message`: same with the object filter. -/
+
+/-- `contains(a, 'b')[github.head_ref]` -/
+def exMiss : E := .index exSafe (.objDeref (.var "github") "head_ref")
+/-- `github.event == contains(a, 'b').issue.title` -/
+def exGhost : E := .cmp .eq (.objDeref (.var "github") "event") (.objDeref (.objDeref exSafe "issue") "title")
+/-- `github.event.commits == contains(a, 'b').*.message` -/
+def exGhostStar : E :=
+  .cmp .eq (.objDeref (.objDeref (.var "github") "event") "commits") (.objDeref (.arrDeref exSafe) "message")
+/-- `github.event.pages == contains(a, 'b')[contains(a, 'b')].page_name` -/
+def exGhostIdx : E :=
+  .cmp .eq (.objDeref (.objDeref (.var "github") "event") "pages") (.objDeref (.index exSafe exSafe) "page_name")
+
+theorem exMiss_machine : run AL.Gen.untrustedRoots (check exΓ exMiss).evs = [] := by
+  unfold exMiss exSafe; evs_simp; decide +kernel
+theorem exMiss_spec : reports AL.Gen.untrustedRoots exΓ.lower (definedIn exΓ) exMiss = [["github.head_ref"]] := by
+  unfold exMiss exSafe; spec_simp; decide +kernel
+
+theorem exGhost_machine : run AL.Gen.untrustedRoots (check exΓ exGhost).evs = [["github.event.issue.title"]] := by
+  unfold exGhost exSafe; evs_simp; decide +kernel
+theorem exGhost_spec : reports AL.Gen.untrustedRoots exΓ.lower (definedIn exΓ) exGhost = [] := by
+  unfold exGhost exSafe; spec_simp; decide +kernel
+
+theorem exGhostStar_machine :
+    run AL.Gen.untrustedRoots (check exΓ exGhostStar).evs = [["github.event.commits.*.message"]] := by
+  unfold exGhostStar exSafe; evs_simp; decide +kernel
+theorem exGhostStar_spec : reports AL.Gen.untrustedRoots exΓ.lower (definedIn exΓ) exGhostStar = [] := by
+  unfold exGhostStar exSafe; spec_simp; decide +kernel
+
+theorem exGhostIdx_machine :
+    run AL.Gen.untrustedRoots (check exΓ exGhostIdx).evs = [["github.event.pages.*.page_name"]] := by
+  unfold exGhostIdx exSafe; evs_simp; decide +kernel
+theorem exGhostIdx_spec : reports AL.Gen.untrustedRoots exΓ.lower (definedIn exΓ) exGhostIdx = [] := by
+  unfold exGhostIdx exSafe; spec_simp; decide +kernel
+
+theorem machine_eq_spec_counterexample : ¬ machine_eq_spec_statement := by
+  intro h
+  have := h exΓ AL.Gen.untrustedRoots exMiss
+  rw [exMiss_machine, exMiss_spec] at this
+  exact absurd this (by decide)
+
+/-- (a′) THE PROPERTY, with the side condition under which it holds: `ok Γ.lower (definedIn Γ) e`
+(`AL.Insecure.ok`, a decidable syntactic check) says that among the *visited* sub-expressions of `e`
+no access segment is applied directly to a contains/startsWith/endsWith call — no `contains(…).p`, no
+`contains(…).*`, and no `contains(…)[i]` unless `i` is a string literal or an access path rooted at
+neither a variable nor a safe call (`AL.Insecure.clean`; then no cursor can be alive when the index
+access fires).  Everything else is unrestricted: safe calls anywhere else (operands of operators,
+arguments, index position), arbitrary nesting, several chains, `.*`, narrowing.  Each excluded form is
+necessary: see `exMiss` (`[i]`), `exGhost` (`.p`), `exGhostStar` (`.*`), `exGhostIdx` (`[i]` with a
+safe call as `i`).  All excluded forms are type errors for the semantic checker (the calls return
+bool), but the linter still runs the untrusted-input pass on them. -/
+def machine_eq_spec_statement' : Prop :=
+  ∀ (Γ : Env) (roots : List Trie) (e : E), ok Γ.lower (definedIn Γ) e = true →
+    run roots (check Γ e).evs = reports roots Γ.lower (definedIn Γ) e
+
+theorem machine_eq_spec' : machine_eq_spec_statement' :=
+  fun Γ roots e hok => run_eq_reports roots Γ e hok
+
+example : ok exΓ.lower (definedIn exΓ) exBig = true := by decide +kernel
+example : run AL.Gen.untrustedRoots (check exΓ exBig).evs =
+    [["github.event.pull_request.head.ref"], ["github.head_ref"]] := by
+  unfold exBig; evs_simp; decide +kernel
+example : reports AL.Gen.untrustedRoots exΓ.lower (definedIn exΓ) exBig =
+    [["github.event.pull_request.head.ref"], ["github.head_ref"]] := by
+  unfold exBig; spec_simp; decide +kernel
+-- the side condition really excludes the four witnesses, and only because of the safe-call root
+example : ok exΓ.lower (definedIn exΓ) exMiss = false ∧ ok exΓ.lower (definedIn exΓ) exGhost = false ∧
+    ok exΓ.lower (definedIn exΓ) exGhostStar = false ∧ ok exΓ.lower (definedIn exΓ) exGhostIdx = false := by
+  decide +kernel
+-- `contains(a,'b')['x']`, `contains(a,'b')[0]`, `contains(a,'b')[format('{0}', github.head_ref)]` are fine
+example : ok exΓ.lower (definedIn exΓ) (.index exSafe (.str "x")) = true ∧
+    ok exΓ.lower (definedIn exΓ) (.index exSafe .num) = true ∧
+    ok exΓ.lower (definedIn exΓ) (.index exSafe (.call "format" [.str "{0}", .objDeref (.var "github") "head_ref"])) = true := by
+  decide +kernel
+
+/-! ### (c) -/
+
+theorem safe_call_silent : safe_call_silent_statement := by
+  intro Γ roots c args hc
+  rw [run_eq, transp_safe roots Γ (.call c args) (by simpa [isSafeE] using hc)]
+  rfl
+
+-- `startsWith(github.head_ref, github.event.issue.title)` — even in upper case, even nested
+example : run AL.Gen.untrustedRoots (check exΓ (.call "StartsWith"
+    [.objDeref (.var "github") "head_ref",
+     .call "format" [.str "{0}", .objDeref (.objDeref (.objDeref (.var "github") "event") "issue") "title"]])).evs = [] := by
+  evs_simp; decide +kernel
+
+/-! ### (b) -/
+
+open no_root_no_report_statement in
+/-- every variable event of the checker stems from a variable occurring in the expression -/
+theorem var_events (Γ : Env) (e : E) : ∀ n, Ev.leave (.var n) ∈ (check Γ e).evs → n ∈ varsOf e := by
+  apply check.induct Γ
+    (motive1 := fun e => ∀ n, Ev.leave (.var n) ∈ (check Γ e).evs → n ∈ varsOf e)
+    (motive2 := fun e x => ∀ n, Ev.leave (.var n) ∈ (narrow Γ e x).evs → n ∈ varsOf e)
+    (motive3 := fun args => ∀ n, Ev.leave (.var n) ∈ (checkArgs Γ args).2.2 → n ∈ varsOfList args)
+  case case1 => intro n h; simp [evs_null] at h
+  case case2 => intro n h; simp [evs_bool] at h
+  case case3 => intro n h; simp [evs_num] at h
+  case case4 => intro v n h; simp [evs_str] at h
+  case case5 => intro name n h; simpa [evs_var, varsOf] using h
+  case case6 =>
+    intro r p _ _ _ _ _ ih n h
+    simp only [evs_objDeref, List.mem_append, List.mem_singleton, Ev.leave.injEq, reduceCtorEq, or_false] at h
+    simpa [varsOf] using ih n h
+  case case7 =>
+    intro r _ _ _ _ ih n h
+    simp only [evs_arrDeref, List.mem_append, List.mem_singleton, Ev.leave.injEq, reduceCtorEq, or_false] at h
+    simpa [varsOf] using ih n h
+  case case8 =>
+    intro r i _ _ _ _ _ ihi ihr n h
+    simp only [evs_index, List.mem_append, List.mem_singleton, Ev.leave.injEq] at h
+    rcases h with (h | h) | h
+    · simp [varsOf, ihi n h]
+    · simp [varsOf, ihr n h]
+    · exact absurd h.symm (leaveOf_index_ne_var _ r i n)
+  case case9 =>
+    intro c args ih n h
+    simp only [evs_call, List.mem_append, List.mem_singleton, Ev.leave.injEq] at h
+    rcases h with (h | h) | h
+    · exact absurd h (not_mem_enterOf _ _ _)
+    · split at h
+      · simp at h
+      · simpa [varsOf] using ih n h
+    · exact absurd h.symm (leaveOf_call_ne_var _ c args n)
+  case case10 =>
+    intro e ih n h
+    simp only [evs_not, List.mem_append, List.mem_singleton, Ev.leave.injEq, reduceCtorEq, or_false] at h
+    simpa [varsOf] using ih n h
+  case case11 =>
+    intro op l r ihl ihr n h
+    simp only [evs_cmp, List.mem_append, List.mem_singleton, Ev.leave.injEq, reduceCtorEq, or_false] at h
+    rcases h with h | h
+    · simp [varsOf, ihl n h]
+    · simp [varsOf, ihr n h]
+  case case12 =>
+    intro op l r ihl ihr n h
+    simp only [evs_logical, List.mem_append, List.mem_singleton, Ev.leave.injEq, reduceCtorEq, or_false] at h
+    rcases h with h | h
+    · have : n ∈ varsOf l := by cases op <;> exact ihl n h
+      simp [varsOf, this]
+    · simp [varsOf, ihr n h]
+  case case13 =>
+    intro l r ihl ihr n h
+    simp only [evs_narrow_and, List.mem_append] at h
+    rcases h with h | h
+    · simp [varsOf, ihl n h]
+    · simp [varsOf, ihr n h]
+  case case14 =>
+    intro l r ihl ihr n h
+    simp only [evs_narrow_or, List.mem_append] at h
+    rcases h with h | h
+    · simp [varsOf, ihl n h]
+    · simp [varsOf, ihr n h]
+  case case15 =>
+    intro op l r x h1 h2 ihl ihr n h
+    simp only [evs_narrow_logical Γ op l r x h1 h2, List.mem_append] at h
+    rcases h with h | h
+    · have : n ∈ varsOf l := by cases op <;> exact ihl n h
+      simp [varsOf, this]
+    · simp [varsOf, ihr n h]
+  case case16 =>
+    intro e t ih n h
+    rw [evs_narrow_not] at h
+    simpa [varsOf] using ih n h
+  case case17 =>
+    intro e x _ _ h3 h4 ih n h
+    rw [narrow_other Γ e x h3 h4] at h
+    exact ih n h
+  case case18 => intro n h; simp [evs_args_nil] at h
+  case case19 =>
+    intro a rest iha ihr n h
+    simp only [evs_args_cons, List.mem_append] at h
+    rcases h with h | h
+    · simp [varsOfList, iha n h]
+    · simp [varsOfList, ihr n h]
+
+theorem no_root_no_report : no_root_no_report_statement := by
+  intro Γ roots e h
+  apply run_nil_of_no_root_events
+  intro n hn
+  rw [List.find?_eq_none]
+  intro r hr hname
+  have hname : r.name = n := by simpa using hname
+  exact h r hr (by rw [hname]; exact var_events Γ e n hn)
+
+-- `env.head_ref == inputs.event.issue.title || steps.x.outputs['github']`: the same property names, but no `github` variable
+example : run AL.Gen.untrustedRoots (check exΓ (.logical .or
+    (.cmp .eq (.objDeref (.var "env") "head_ref") (.objDeref (.objDeref (.objDeref (.var "inputs") "event") "issue") "title"))
+    (.index (.objDeref (.objDeref (.var "steps") "x") "outputs") (.str "github")))).evs = [] := by
+  evs_simp; decide +kernel
+
+/-! ### (d) is false as stated for a root list with duplicate names
+
+`chainReport` (like the Go `map` lookup `u.roots[v.Name]`) uses the FIRST root of that name, whereas
+the statement lets `r` be any root of that name.  With pairwise distinct root names (always the case
+for a Go map, and re-checked for the generated trie below) it holds. -/
+
+theorem documented_path_reported_counterexample : ¬ documented_path_reported_statement := by
+  intro h
+  have := h [.node "a" [.node "x" []], .node "a" []] "a" [] ⟨["a"], .node "a" []⟩
+    ⟨.node "a" [], by simp, rfl, rfl⟩ rfl
+  exact absurd this (by decide +kernel)
+
+/-- (d′) as (d), for root lists with pairwise distinct names -/
+def documented_path_reported_statement' : Prop :=
+  ∀ (roots : List Trie), roots.Pairwise (fun a b => a.name ≠ b.name) →
+  ∀ (root : String) (segs : List Seg) (leaf : Cur),
+    (∃ r ∈ roots, r.name = root ∧ followAll [⟨[r.name], r⟩] false segs = [leaf]) → leaf.node.isLeaf = true →
+    chainReport roots root segs = [[leaf.pathStr]]
+
+theorem documented_path_reported' : documented_path_reported_statement' := by
+  intro roots hpw root segs leaf ⟨r, hr, hname, hw⟩ hl
+  subst hname
+  exact chainReport_of_find roots r.name segs r leaf (find?_of_pairwise roots hpw r hr) hw hl
+
+/-- the generated trie has pairwise distinct root names (re-checked on every run) -/
+theorem builtin_roots_distinct : AL.Gen.untrustedRoots.Pairwise (fun a b => a.name ≠ b.name) := by
+  decide +kernel
+
+-- `github['EVENT'].pull_request['Head'].ref` (segments after folding) and `github.event.commits[0].author.email`
+example : chainReport AL.Gen.untrustedRoots "github" [.prop "event", .prop "pull_request", .prop "head", .prop "ref"] =
+    [["github.event.pull_request.head.ref"]] := by decide +kernel
+example : chainReport AL.Gen.untrustedRoots "github" [.prop "event", .prop "commits", .idx, .prop "author", .prop "email"] =
+    [["github.event.commits.*.author.email"]] := by decide +kernel
+-- and spelled as an expression, through the machine:
+example : run AL.Gen.untrustedRoots (check exΓ
+    (.objDeref (.index (.objDeref (.index (.var "github") (.str "EVENT")) "pull_request") (.str "Head")) "ref")).evs =
+    [["github.event.pull_request.head.ref"]] := by
+  evs_simp; decide +kernel
+-- the object filter reports all the leaves it reaches, sorted: `github.event.pull_request.*`
+example : chainReport AL.Gen.untrustedRoots "github" [.prop "event", .prop "pull_request", .star] =
+    [["github.event.pull_request.body", "github.event.pull_request.title"]] := by decide +kernel
+
+/-! ### (e) -/
+
+/-- re-checked against the regenerated trie on every run -/
+theorem builtin_leaves_reported : builtin_leaves_reported_statement := by
+  unfold builtin_leaves_reported_statement
+  decide +kernel
+
+-- not vacuous
+example : builtin_leaves_reported_statement.leafPaths AL.Gen.untrustedRoots ≠ [] := by decide +kernel
+example : ["github", "event", "pages", "*", "page_name"] ∈ builtin_leaves_reported_statement.leafPaths AL.Gen.untrustedRoots := by
+  decide +kernel
 
 end AL.C11
